@@ -121,8 +121,13 @@ pub trait Dom {
     fn occurrences(p: &Self::Pat, h: &Self::Host) -> Vec<S>;
     /// the anchor of a reported match
     fn anchor(m: &S) -> S;
-    /// instantiate the pattern as a host (variables -> characters), for C11
     fn pat_size(p: &Self::Pat) -> usize;
+    /// the pattern itself as a host (variables instantiated consistently, possibly with equal
+    /// characters for different variables) and the anchor at which it must be found; None when
+    /// the start cell of that host does not exist
+    fn inst(p: &Self::Pat, rng: &mut Rng) -> Option<(Self::Host, S)>;
+    /// one host-extension step; returns the new host and the anchor corresponding to `anchor`
+    fn extend(h: &Self::Host, anchor: &S, rng: &mut Rng) -> (Self::Host, S, &'static str);
 }
 
 // ------------------------------------------------------------------ dump → S
@@ -468,6 +473,29 @@ impl Dom for StrDom {
     fn pat_size(p: &Vec<Cv>) -> usize {
         p.len()
     }
+    fn inst(p: &Vec<Cv>, rng: &mut Rng) -> Option<(String, S)> {
+        let env: Vec<char> = (0..3).map(|_| LITS[rng.below(4)]).collect();
+        let h: String = p
+            .iter()
+            .map(|c| match c {
+                Cv::Lit(c) => *c,
+                Cv::Var(v) => env[VARS.iter().position(|x| x == v).unwrap_or(0)],
+            })
+            .collect();
+        Some((h, if p.is_empty() { sexp::a("u") } else { sexp::a(0) }))
+    }
+    fn extend(h: &String, anchor: &S, rng: &mut Rng) -> (String, S, &'static str) {
+        let t: String = (0..rng.range(1, 3)).map(|_| LITS[rng.below(4)]).collect();
+        if rng.chance(1, 2) {
+            (format!("{}{}", h, t), anchor.clone(), "append")
+        } else {
+            let a2 = match anchor {
+                S::A(a) if a != "u" => sexp::a(a.parse::<usize>().unwrap() + t.chars().count()),
+                other => other.clone(),
+            };
+            (format!("{}{}", t, h), a2, "prepend")
+        }
+    }
 }
 
 // ------------------------------------------------------------------ matrices
@@ -676,6 +704,52 @@ impl Dom for MatDom {
     }
     fn pat_size(p: &Self::Pat) -> usize {
         p.iter().map(|r| r.iter().filter(|c| c.is_some()).count()).sum()
+    }
+    fn inst(p: &Self::Pat, rng: &mut Rng) -> Option<(Self::Host, S)> {
+        let env: Vec<char> = (0..3).map(|_| LITS[rng.below(3)]).collect();
+        let h: Vec<Vec<char>> = p
+            .iter()
+            .map(|row| {
+                row.iter()
+                    .map(|c| match c {
+                        Some(Cv::Lit(c)) => *c,
+                        Some(Cv::Var(v)) => env[VARS.iter().position(|x| x == v).unwrap_or(0)],
+                        None => LITS[rng.below(3)],
+                    })
+                    .collect()
+            })
+            .collect();
+        if h.first().map_or(true, |r| r.is_empty()) {
+            return None;
+        }
+        Some((h, sexp::nums([0, 0])))
+    }
+    fn extend(h: &Self::Host, anchor: &S, rng: &mut Rng) -> (Self::Host, S, &'static str) {
+        let (r, c) = { let l = anchor.as_list(); (l[0].as_usize(), l[1].as_usize()) };
+        let mut h2 = h.clone();
+        let new_row = |rng: &mut Rng| -> Vec<char> { (0..rng.below(4)).map(|_| LITS[rng.below(3)]).collect() };
+        match rng.below(4) {
+            0 => {
+                for _ in 0..rng.range(1, 2) { let nr = new_row(rng); h2.push(nr); }
+                (h2, anchor.clone(), "rows appended")
+            }
+            1 => {
+                let n = rng.range(1, 2);
+                for _ in 0..n { let nr = new_row(rng); h2.insert(0, nr); }
+                (h2, sexp::nums([r + n, c]), "rows prepended")
+            }
+            2 => {
+                for row in h2.iter_mut() {
+                    if rng.chance(1, 2) { for _ in 0..rng.range(1, 2) { row.push(LITS[rng.below(3)]); } }
+                }
+                (h2, anchor.clone(), "rows widened")
+            }
+            _ => {
+                let n = rng.range(1, 2);
+                for row in h2.iter_mut() { for _ in 0..n { row.insert(0, LITS[rng.below(3)]); } }
+                (h2, sexp::nums([r, c + n]), "columns prepended")
+            }
+        }
     }
 }
 
